@@ -41,7 +41,7 @@ var (
 type Scn struct {
 	Stages []string `json:"stages"` // wrapping / consuming stages in order, last is the terminal (rec|echo)
 	Layout string   `json:"layout"` // one: a single route; per: one route (with its own matcher) per stage
-	KProf  string   `json:"kprof"`  // small | big0 | bigN : how many bytes the route matchers need
+	KProf  string   `json:"kprof"`  // small | big0 | bigN | bigAll | nearN : how many bytes the route matchers need
 	Mode   string   `json:"mode"`   // matcher read style
 	PLen   int      `json:"plen"`
 	FIN    bool     `json:"fin"`
@@ -80,6 +80,10 @@ func (b *builder) k() int {
 		return big()
 	case b.sc.KProf == "bigAll":
 		return big()
+	case b.sc.KProf == "nearN" && r == b.total-1:
+		// decided only inside the last chunk below the limit: with an unaligned segmentation the
+		// matching buffer overshoots the limit before the route matches
+		return limit - 3
 	}
 	return []int{1, 3, 2}[r%3]
 }
@@ -426,12 +430,16 @@ func scenarios(tier string, yield func(any) bool) {
 							kps = kps[:2]
 						}
 					}
+					kps = append(kps, "nearN")
 					for _, kp := range kps {
 						ls := lens
 						if isTLS {
 							ls = tlsLens
 						}
 						for _, l := range ls {
+							if kp == "nearN" && l < M-1 {
+								continue // can never be decided
+							}
 							for _, fin := range []bool{true, false} {
 								isTee := false
 								for _, s := range stages {
@@ -483,7 +491,7 @@ func main() {
 	runner.Main(&runner.Harness{
 		ID:    "C01",
 		Level: "model_checking",
-		Rule: "handler chains built from the shipped wrapping handlers (proxy_protocol, tls, throttle, tee, subroute) + consume + terminal recorder/echo, as one route or one route per stage, matchers needing 1..3 or >half-limit bytes in 4 read styles; position-coded payloads of the boundary lengths {0,1,c-1,c,c+1,2c,M-1,M,M+1,M+c,3M}; half-close or silence; read segmentations from the menu {rest,1,7,c-1,c,c+1,4096,4097} with bounded deviations (all segmentations for streams <=12 bytes with scaled constants); " + part +
+		Rule: "handler chains built from the shipped wrapping handlers (proxy_protocol, tls, throttle, tee, subroute) + consume + terminal recorder/echo, as one route or one route per stage, matchers needing 1..3, >half-limit or limit-3 bytes in 4 read styles; position-coded payloads of the boundary lengths {0,1,c-1,c,c+1,2c,M-1,M,M+1,M+c,3M}; half-close or silence; read segmentations from the menu {rest,1,7,c-1,c,c+1,4096,4097} with bounded deviations (all segmentations for streams <=12 bytes with scaled constants); " + part +
 			"; non-trivial = executions in which a consuming handler actually ran and its bytes were compared",
 		Assumptions: []string{
 			"the TLS client is crypto/tls over an in-memory duplex whose server side only observes the client at quiescence (deterministic Kahn network)",
